@@ -262,9 +262,11 @@ fn gen_c02(seed: u64, idx: usize, tier: Tier) -> GitScenario {
                 have_cp = true;
             } else {
                 let nc = g.model.commits.len();
-                let (b, e) = match g.rng.below(5) {
+                let (b, e) = match g.rng.below(6) {
                     0 | 1 | 2 => (None, None),
                     3 => (Some(g.rng.below(nc)), None),
+                    // --end alone: the interval starts at the checkpoint
+                    4 => (None, Some(g.rng.below(nc))),
                     _ => {
                         let b = g.rng.below(nc);
                         (Some(b), Some(g.rng.range(b, nc - 1)))
